@@ -350,6 +350,24 @@ func enumSpace() []enumCase {
 			}
 		}
 	}
+	// a file moved to another directory (the request gives up its locks and takes {from-dir, to-dir, file} again in
+	// inode order) while the other client makes requests in the two directories - among them creations that are
+	// refused after they have started (which makes the server forget its cached copy of the directory)
+	for _, mv := range []cOp{{Kind: "rename", Dir: D, Name: "a", Dir2: 0, Name2: "a"}, {Kind: "rename", Dir: 0, Name: "a", Dir2: D, Name2: "b"}} {
+		other := []cOp{{Kind: "createlong", Dir: D}, {Kind: "createlong", Dir: 0}, {Kind: "create", Dir: D, Name: "b"}, {Kind: "create", Dir: 0, Name: "b"},
+			{Kind: "create", Dir: D, Name: "c"}, {Kind: "create", Dir: 0, Name: "c"}, {Kind: "remove", Dir: mv.Dir, Name: "a"}, {Kind: "mkdir", Dir: mv.Dir2, Name: "x"}}
+		for _, a := range other {
+			progs := [][]cOp{{a}}
+			for _, b := range other {
+				progs = append(progs, []cOp{a, b})
+			}
+			for _, prog := range progs {
+				for hook := 0; hook < 12; hook++ {
+					cases = append(cases, enumCase{Pre: []cOp{{Kind: "create", Dir: mv.Dir, Name: "a"}}, Op0: mv, Prog1: prog, Hook: hook})
+				}
+			}
+		}
+	}
 	// a file reached through its handle while its name is removed, replaced or moved
 	wh := func(off uint64, n int, tag uint32) cOp {
 		return cOp{Kind: "writeh", Off: off, Data: string(patternData(tag, uint64(n))), Stable: 2}
